@@ -635,6 +635,14 @@ pub(super) fn translate_sstring(
         .join(""))
 }
 
+/// `a + b - 1` (composition of two 1-based bounds), or an error when the
+/// result does not fit into an i64.
+fn shift_bound(a: i64, b: i64) -> Result<i64> {
+    a.checked_add(b)
+        .and_then(|x| x.checked_sub(1))
+        .ok_or_else(|| Error::new_simple("take range is too large"))
+}
+
 /// Aggregate several ordered ranges into one, computing the intersection.
 ///
 /// Returns a tuple of `(start, end)`, where `end` is optional.
@@ -644,8 +652,15 @@ pub(super) fn range_of_ranges(ranges: Vec<Range<rq::Expr>>) -> Result<Range<i64>
         let mut range = try_range_into_int(range)?;
 
         // b = b + a.start -1 (take care of 1-based index!)
-        range.start = range.start.or_map(current.start, |a, b| a + b - 1);
-        range.end = range.end.map(|b| current.start.unwrap_or(1) + b - 1);
+        range.start = match (range.start, current.start) {
+            (Some(a), Some(b)) => Some(shift_bound(a, b)?),
+            (a, None) => a,
+            (None, b) => b,
+        };
+        range.end = match range.end {
+            Some(b) => Some(shift_bound(current.start.unwrap_or(1), b)?),
+            None => None,
+        };
 
         // b.end = min(a.end, b.end)
         range.end = current.end.or_map(range.end, i64::min);
